@@ -2,7 +2,7 @@ import sys
 from typing import List
 from pathlib import Path
 
-from jedi.inference.cache import inference_state_method_cache
+from jedi.inference.cache import inference_state_method_generator_cache
 from jedi.inference.imports import goto_import, load_module_from_path
 from jedi.inference.filters import ParserTreeFilter
 from jedi.inference.base_value import NO_VALUES, ValueSet
@@ -148,7 +148,10 @@ def _find_pytest_plugin_modules() -> List[List[str]]:
     return [ep.module.split(".") for ep in pytest_entry_points]
 
 
-@inference_state_method_cache()
+# The normal memoize decorator would store the generator itself: a second
+# lookup on the same module would continue where the first one stopped (after
+# the module that had the fixture) instead of starting with the own module.
+@inference_state_method_generator_cache()
 def _iter_pytest_modules(module_context, skip_own_module=False):
     if not skip_own_module:
         yield module_context
